@@ -367,7 +367,39 @@ def split_rule(rep, prog, cfg):
             l2, _ = fl.sources([op_local(t["args"][1])], through_call=identity_through, follow_mut=False)
             if any(x[0] == "call" and x[1] in nexts for x in l2):
                 pushed_ok = True
-        rep.check(acc is not None and ok_frames and err_frames and err_error and pushed_ok and len(nexts) == 1 and len(pushes) == 1, rule, cfg + "/raw_command_list", b.loc(b.span),
+        fold_ok = False
+        if acc is None and not pushes:
+            # fold form: `res.into_iter().try_fold(Vec::with_capacity(..), |mut frames, frame| match frame { Ok(f) => { frames.push(f);
+            # Ok(frames) } Err(error) => Err(ErrorResponse { error, succesful_frames: frames }) })` — the accumulator is the closure's
+            # first parameter, the item its second; try_fold of the forward iterator visits the items in order and stops at Err
+            folds = [(bb, t) for bb, t in b.calls() if any(n.endswith("Iterator::try_fold") for n in callee_names(t)) and len(t["args"]) == 3]
+            if len(folds) == 1:
+                from ..scans import closure_of_local
+                clo = closure_of_local(prog, b, op_local(folds[0][1]["args"][2]))
+                ret, _ = fl.sources([0], through_call=identity_through, follow_mut=False)
+                if clo is not None and ("call", folds[0][0]) in ret:
+                    fc = Flow(clo)
+                    cp = [(bb, t) for bb, t in clo.calls() if "alloc::vec::Vec::push" in callee_names(t)]
+                    if len(cp) == 1:
+                        a0, _ = fc.sources([op_local(cp[0][1]["args"][0])], through_call=identity_through, follow_mut=True)
+                        a1, _ = fc.sources([op_local(cp[0][1]["args"][1])], through_call=identity_through, follow_mut=False)
+                        pushed = ("param", 2) in a0 and ("param", 3) in a1 and ("param", 2) not in a1
+                        e_frames = e_error = o_frames = False
+                        for _, _, s3 in clo.stmts():
+                            if s3["k"] != "assign" or s3["rv"]["k"] != "agg":
+                                continue
+                            if s3["rv"].get("variant") == "ErrorResponse":
+                                ops = dict(zip(s3["rv"]["fields"], s3["rv"]["ops"]))
+                                x, _ = fc.sources([op_local(ops["succesful_frames"])], follow_mut=False)
+                                y, _ = fc.sources([op_local(ops["error"])], through_call=identity_through, follow_mut=False)
+                                e_frames, e_error = ("param", 2) in x and ("param", 3) not in x, ("param", 3) in y and ("param", 2) not in y
+                            if s3["rv"].get("variant") == "Ok" and s3["rv"].get("adt_name", "").endswith("result::Result"):
+                                x, _ = fc.sources([op_local(s3["rv"]["ops"][0])], follow_mut=False)
+                                o_frames = o_frames or ("param", 2) in x
+                        fold_ok = pushed and e_frames and e_error and o_frames
+        if fold_ok:
+            acc, ok_frames, err_frames, err_error, pushed_ok = "fold", True, True, True, True
+        rep.check(acc is not None and ok_frames and err_frames and err_error and pushed_ok and (fold_ok or (len(nexts) == 1 and len(pushes) == 1)), rule, cfg + "/raw_command_list", b.loc(b.span),
                   "the list reply is not split into (frames accumulated from the iteration's Ok items, in order) and (the iteration's Err item): "
                   "ok<-acc=%s err.frames<-acc=%s err.error<-item=%s pushed<-item=%s" % (ok_frames, err_frames, err_error, pushed_ok))
         names = set()
